@@ -52,6 +52,13 @@ type Descriptor struct {
 	// VoidReturn indicates if the constructor has no valid return values
 	VoidReturn bool
 
+	// coRegistered lists the descriptors registered together for the results
+	// of one constructor (multi-return values or result object fields); the
+	// slice is shared by all of them. resultField names the result object
+	// field a descriptor stands for.
+	coRegistered []*Descriptor
+	resultField  string
+
 	// Analysis results cached for performance
 	isFunc         bool
 	isResultObject bool
